@@ -275,7 +275,7 @@ def gen_tl(rs, names: List[str], n: Optional[int] = None, must: Optional[List[st
     terms = [gen_term(rs, names, must) for _ in range(n)]
     if shapes and terms and rs.random() < 0.45:
         # adversarial shapes: duplicates, parallel rows, opposite rows, boxes
-        kind = rs.choice(["dup", "parallel", "opposite", "box", "scaled", "difference", "difference", "difference", "corner", "single", "near", "partial_parallel"])
+        kind = rs.choice(["dup", "parallel", "opposite", "box", "scaled", "difference", "difference", "difference", "corner", "single", "near", "partial_parallel", "ladder", "fork", "fork"])
         t = rs.choice(terms)
         cf = {k: float.fromhex(v[1]) for k, v in t["T"]}
         c0 = float.fromhex(t["c"][1])
@@ -287,6 +287,33 @@ def gen_tl(rs, names: List[str], n: Optional[int] = None, must: Optional[List[st
             terms.append(lit_term({k: -v for k, v in cf.items()}, rs.choice([c0, -c0, 0.0, 3.0])))
         elif kind == "scaled":
             terms.append(lit_term({k: 2.0 * v for k, v in cf.items()}, 2.0 * c0))
+        elif kind == "fork":
+            # two ordering chains from one root: r <= a1 <= a2 (nothing bounds a2: a dead end) and r <= b1 <= k (k is an anchor);
+            # the working candidate row is the LAST one, the root itself is bounded by a one-variable row elsewhere
+            if len(names) >= 5:
+                r_, a1, a2, b1, k_ = rs.sample(names, 5)
+                rows = [lit_term({r_: 1.0, a1: -1.0}, 0.0), lit_term({a1: 1.0, a2: -1.0}, float(rs.choice([0, 1]))),
+                        lit_term({b1: 1.0, k_: -1.0}, float(rs.choice([0, 0, 2]))), lit_term({r_: 1.0, b1: -1.0}, 0.0)]
+                if rs.random() < 0.3:
+                    rs.shuffle(rows)
+                terms = (terms[:1] if rs.random() < 0.5 else []) + rows
+                if rs.random() < 0.5:
+                    terms.insert(0, lit_term({r_: 1.0}, float(rs.choice([1, 2, 5]))))
+                rs.shuffle(terms) if False else None
+                return {"TL": terms}
+        elif kind == "ladder":
+            # an ordering chain p1 <= p2 <= p3 (<= p4) with a dead end at the top, plus a second row bounding p1 some other way:
+            # recursive substitution tactics have to back out of the dead end and try the next candidate
+            k_l = min(len(names), rs.choice([3, 3, 4]))
+            if k_l >= 3:
+                chain = rs.sample(names, k_l)
+                for p_, q_ in zip(chain, chain[1:]):
+                    terms.append(lit_term({p_: 1.0, q_: -1.0}, float(rs.choice([0, 0, 1, 2]))))
+                extra = [n_ for n_ in names if n_ not in chain]
+                if extra and rs.random() < 0.7:
+                    terms.append(lit_term({chain[0]: 1.0, extra[0]: float(rs.choice([-1, -2, 1]))}, float(rs.choice(CONSTS))))
+                elif rs.random() < 0.5:
+                    terms.append(lit_term({chain[0]: 1.0}, float(rs.choice([1, 5, 10]))))
         elif kind == "partial_parallel":
             # two rows that agree on some variables and differ in one other variable: eliminating the common variables
             # leaves a singular / inconsistent system for the context-reduction tactics
@@ -359,7 +386,7 @@ def gen_initial_pool(rs) -> Dict[str, Dict]:
             if nm not in ins:
                 ins.append(nm)
         pool["C%d" % i] = gen_contract(rs, ins, outs)
-    if rs.random() < 0.3:
+    if rs.random() < 0.45:
         # a near twin: the same contract with every constant (sometimes every coefficient too) moved in the 6th-12th digit;
         # the two print identically with four significant digits and are different contracts
         src_i, dst_i = rs.sample(range(NC), 2)
@@ -382,6 +409,16 @@ def gen_initial_pool(rs) -> Dict[str, Dict]:
             pool["L%d" % j] = rs.choice([c[2], c[3]])
         else:
             pool["L%d" % j] = gen_tl(rs, rs.sample(NAMES, rs.choice([2, 3, 4])))
+    if rs.random() < 0.4:
+        # near-twin constraint lists as well (contexts that print alike and are different)
+        src_j, dst_j = rs.sample(range(NL), 2)
+        eps = rs.choice([1e-6, -1e-6, 3e-7, 1e-9])
+        out = []
+        for t in pool["L%d" % src_j]["TL"]:
+            c0 = float.fromhex(t["c"][1])
+            out.append(lit_term({k: float.fromhex(v[1]) for k, v in t["T"]}, c0 * (1.0 + eps) if c0 != 0 else eps))
+        if out:
+            pool["L%d" % dst_j] = {"TL": out}
     return pool
 
 
@@ -436,8 +473,18 @@ def gen_side(rs, names: List[str], depth: int = 0, allow_abs: bool = True) -> st
 
 def gen_string(rs, names: List[str]) -> str:
     """Constraint strings over the documented grammar, including shapes that must be rejected."""
-    kind = rs.choice(["plain", "plain", "geq", "eq", "abs", "abs2", "abs_both", "chain", "paren", "arith", "nonconvex", "malformed", "repeat",
-                      "tree", "tree", "tree", "tree_eq"])
+    kind = rs.choice(["plain", "plain", "geq", "eq", "abs", "abs2", "abs_both", "chain", "chain_abs", "abs_cancel", "paren", "arith", "nonconvex",
+                      "malformed", "repeat", "tree", "tree", "tree", "tree_eq"])
+    if kind == "chain_abs":
+        # a chain whose links differ: an early link is an ordinary inequality, a later one is (non-)convex in an absolute value
+        a_, b_, c_ = rs.choice(names), rs.choice(names), rs.choice(names)
+        return rs.choice(["{n} <= {a} <= |{b}|", "|{b}| <= {a} <= {n}", "{n} <= {a} <= {m} - |{b}|", "0 <= {a} <= |{b}| <= {n}", "|{a}| <= {n} <= |{b}| + {c}",
+                          "{a} >= |{b}| >= {n}", "{n} >= {a} >= |{b}|"]).format(a=a_, b=b_, c=c_, n=rs.choice(["1", "2", "0", "3.5"]), m=rs.choice(["5", "10"]))
+    if kind == "abs_cancel":
+        # absolute values whose contents cancel or are constant, alone or facing another absolute value across the relation
+        a_, b_ = rs.choice(names), rs.choice(names)
+        return rs.choice(["|{a} - {a}| <= 3 - |{b}|", "|{a} - {a}| <= {n}", "|0| + {b} <= {n}", "|{b}| <= |{a} - {a}| + {n}", "|2{a} - 2*{a}| + |{b}| <= {n}",
+                          "|{a}| + |{a} - {a}| <= {n}", "{n}|{a} - {a}| >= {b}", "|1 - 1| <= {b}"]).format(a=a_, b=b_, n=rs.choice(["1", "2", "4"]))
     if kind == "abs_both":
         # the same absolute-value term on both sides of the relation (it is combined into one when the sides are subtracted)
         inner = rs.choice(names) if rs.random() < 0.6 else "%s %s %s" % (rs.choice(names), rs.choice(["-", "+"]), rs.choice(names))
@@ -768,6 +815,34 @@ def gen_step(rs, view: View, allowed_ops: List[str], weights: Optional[Dict[str,
             elim = list(vs) + _subset(rs, cvs, 0.5)  # more eliminated variables than usable context rows
         if r_el > 0.92:
             elim = [rs.choice([n_ for n_ in NAMES + EXTRA_NAMES if n_ not in vs] or NAMES)]  # nothing mentions it
+        elif 0.6 < r_el <= 0.8:
+            # eliminate every variable that sits on an ordering chain (rows a*p - a*q <= c) of the list or its context:
+            # the substitution tactics then have to walk the chains, dead ends included
+            chainv: List[str] = []
+            for tl_c in (view.pool[li], view.pool[lj]):
+                for t_c in tl_c["TL"]:
+                    if len(t_c["T"]) == 2:
+                        (k1, v1), (k2, v2) = t_c["T"]
+                        if float.fromhex(v1[1]) == -float.fromhex(v2[1]):
+                            for k_c in (k1, k2):
+                                if k_c not in chainv:
+                                    chainv.append(k_c)
+            if chainv:
+                # keep the anchors: variables that only ever appear as the upper end of a chain row
+                lower = set()
+                upper = set()
+                for tl_c in (view.pool[li], view.pool[lj]):
+                    for t_c in tl_c["TL"]:
+                        if len(t_c["T"]) == 2:
+                            (k1, v1), (k2, v2) = t_c["T"]
+                            c1 = float.fromhex(v1[1])
+                            if c1 == -float.fromhex(v2[1]):
+                                lower.add(k1 if c1 > 0 else k2)
+                                upper.add(k2 if c1 > 0 else k1)
+                anchors = [v_ for v_ in chainv if v_ in upper and v_ not in lower]
+                keep_n = rs.choice([0, 1, 1, 2])
+                kept_anchor = rs.sample(anchors, min(keep_n, len(anchors)))
+                elim = [v_ for v_ in chainv if v_ not in kept_anchor]
         if deg is not None and li == deg and deg_zero:
             elim = list(dict.fromkeys(deg_zero + (elim if rs.random() < 0.5 else [])))  # eliminate what cancelled
         A["self"] = {"slot": li}
